@@ -129,6 +129,12 @@ func (dps *DefaultPathStrategy) GetRequestInfo(urlCtx base.UrlContext, rootOutPa
 		ri.FileNameWithPath = filepath.Join(rootOutPath, ri.StreamName, filename)
 	}
 
+	// the stream name is used as the name of a directory below rootOutPath: ".." (e.g. `/hls/%2e%2e/playlist.m3u8`,
+	// `/hls/...m3u8`, `/hls/..-1-2.ts`) or a name containing a path separator would address a file outside of it
+	if ri.StreamName == ".." || strings.ContainsAny(ri.StreamName, `/\`) {
+		return RequestInfo{}
+	}
+
 	return
 }
 
